@@ -52,7 +52,7 @@ def generate(rng, tier):
     for _ in range(rng.randint(1, 6)):
         fi = rng.randrange(nfr)
         g = frames[fi]["geom"]
-        ops.append({"op": "inject", "fr": fi, "sig": F.gen_signal(rng, g), "bounding": gen_bounding(rng)})
+        ops.append({"op": "inject", "fr": fi, "sig": F.gen_signal(rng, g, stateful=rng.random() < 0.4), "bounding": gen_bounding(rng)})
     return {"seams": {"clock_origin": 1.7e9 + rng.randrange(1000), "clock_jitter_seed": rng.randrange(1 << 20),
                       "entropy_salt": rng.randrange(1 << 20), "scratch": "c06"},
             "frames": frames, "ops": ops}
